@@ -196,6 +196,7 @@ def _run_case(REG, case, rnd, env):
         return dict(status='inconclusive', where='pre', detail=s.reason_unknown())
     nvars0, node_ids = len(b.vars), sorted(b._succ, reverse=True)
     free = getattr(M, 'REG_FREE_GHOST', {}).get(case.contract, ())
+    exhaustive = case.contract in getattr(M, 'REG_ALL_ASSIGNMENTS', ()) and nvars0 <= 4
 
     def ghost_instance(rep=0):
         """one instance of the free ghost parameters (random hints, dropped when they contradict the precondition) together with
@@ -203,7 +204,10 @@ def _run_case(REG, case, rnd, env):
         depth = 0
         try:
             for P in (A, A2, A3, Q):
-                hint = And(*[P[l] == BoolVal(rnd.random() < .5) for l in levels])
+                if P is A and exhaustive:
+                    hint = And(*[A[IntVal(l)] == BoolVal(bool((rep >> l) & 1)) for l in range(nvars0)])    # every assignment in turn
+                else:
+                    hint = And(*[P[l] == BoolVal(rnd.random() < .5) for l in levels])
                 s.push()
                 depth += 1
                 s.add(hint)
@@ -274,6 +278,8 @@ def _run_case(REG, case, rnd, env):
         reps = max(reps, min(12, len(node_ids)))
     if c.uses is not None and 'hl' in c.uses:
         reps = max(reps, min(12, nvars0))
+    if exhaustive:
+        reps = 2 ** nvars0
     inconclusive = 0
     for rep in range(reps):
         fixed = ghost_instance(rep)
